@@ -12,6 +12,8 @@ From Coq Require Import List Bool Arith.
 From Coq Require Import NArith Permutation.
 From PV Require Import Lib.ListX Model.Ident Model.NameGen.
 From PV Require Import Model.Rel Proofs.FrameFacts Model.Wildcards Proofs.WildcardsProofs Model.Dedup Proofs.DedupProofs Model.SelectItems Proofs.SelectItemsProofs.
+From PV Require Model.Rq Model.Lowerer Model.LowererTrace Model.LowererSelect.
+From PV Require Import Model.LimitSelect Proofs.LimitSelectProofs.
 Import ListNotations.
 
 Theorem c05_select_one_column_per_item : forall cols l r, In r (Rel.apply (TSelect cols) l) -> length r = length cols.
@@ -209,3 +211,48 @@ Example c05_ex_invented_alias : (* `u.a` of a column without a name while `_expr
     (select_item lower_ascii [gen_name expr_prefix 1] (mkn [(1, s_a); (2, gen_name expr_prefix 0)] 0%N) 6 (ECompound [[117%N]; s_a]))
   = Some (1%N, (0%N, [[117%N]; s_a]), [gen_name expr_prefix 2]).
 Proof. vm_compute. reflexivity. Qed.
+
+
+(* ==== the limiting SELECT of extract_atomic (Model/LimitSelect.v, compared with every real call through verif:extract_atomic) *)
+
+(* whatever the atomic pipeline had to select for its own clauses (sort keys, row numbers), the closing SELECT list contains
+   no column that was not asked for *)
+Theorem c05_closing_select_within_output : forall output select_cols, incl (closing_select output select_cols) output.
+Proof. exact closing_select_within_output. Qed.
+Print Assumptions c05_closing_select_within_output.
+
+Theorem c05_closing_select_limited : forall output select_cols,
+  has_extra output select_cols = true -> closing_select output select_cols = output.
+Proof. exact closing_select_limited. Qed.
+Print Assumptions c05_closing_select_limited.
+
+(* "the closing SELECT list IS the requested list" holds when a limiting SELECT is appended, or when the atomic pipeline's
+   own Select is the requested list (the second hypothesis is checked on every real call: never violated) *)
+Theorem c05_closing_select_exact_partial : forall output select_cols,
+  has_extra output select_cols = true \/ select_cols = output -> closing_select output select_cols = output.
+Proof. exact closing_select_exact_partial. Qed.
+Print Assumptions c05_closing_select_exact_partial.
+
+(* without either, the list may be a proper part of what was asked for *)
+Example c05_ex_closing_select_not_limited : closing_select [1; 2] [2] = [2] /\ has_extra [1; 2] [2] = false.
+Proof. vm_compute. split; reflexivity. Qed.
+
+(* ==== lineage -> declared columns of a relation: Lowerer::push_select (C16's Model/LowererSelect.v push_select_m, tied to the
+   code by C16's replay of the lowerer trace).  What C05 needs of it: one relation column per Single column of the frame, in
+   frame order, under the frame's name; an `All` contributes the input's columns except the excluded names *)
+Theorem c05_push_select_frame_exact : forall m inputs cols f,
+  LowererSelect.push_select_m m inputs cols = Some f -> map fst f = concat (expected_cols m cols).
+Proof. exact push_select_frame_exact. Qed.
+Print Assumptions c05_push_select_frame_exact.
+
+Theorem c05_push_select_singles_exact : forall m inputs cols f,
+  LowererSelect.push_select_m m inputs cols = Some f ->
+  (forall c, In c cols -> exists n t tn, c = LowererSelect.LSingle n t tn) ->
+  map fst f = map (fun c => match c with LowererSelect.LSingle n _ _ => Rq.RSingle n | LowererSelect.LAll _ _ => Rq.RWildcard end) cols.
+Proof. exact push_select_singles_exact. Qed.
+Print Assumptions c05_push_select_singles_exact.
+
+Theorem c05_push_select_all_minus_except : forall ic except rc,
+  In rc (LowererSelect.all_cols ic except) <-> In rc ic /\ (forall n, fst rc = Rq.RSingle (Some n) -> ~ In n except).
+Proof. exact all_cols_spec. Qed.
+Print Assumptions c05_push_select_all_minus_except.
